@@ -266,4 +266,483 @@ theorem genEntropy_eq (j : Jitter.Rng) (rs : List U64) :
       obtain ⟨⟨h1, h2, h3⟩, h4⟩ := hc
       simp only [Option.bind_some, Option.map_some, abs, stir_eq, h1, h2, h3, h4, List.foldl_cons, drop4]
 
+/-! ## the operations -/
+
+/-- what a caller can observe of a model operation: result, abstract state, remaining readings -/
+def obs {α : Type} (x : Option ((α × Jitter.Rng) × List U64)) : Option (α × JitterProc.St × List U64) :=
+  x.map fun r => (r.1.1, abs r.1.2, r.2)
+
+theorem obs_bind {α β : Type} (X : Option ((α × Jitter.Rng) × List U64))
+    (F : (α × Jitter.Rng) × List U64 → Option ((β × Jitter.Rng) × List U64))
+    (G : α × JitterProc.St × List U64 → Option (β × JitterProc.St × List U64))
+    (hFG : ∀ a j rs, obs (F ((a, j), rs)) = G (a, abs j, rs)) :
+    obs (X.bind F) = (obs X).bind G := by
+  rcases X with _ | ⟨⟨a, j⟩, rs⟩
+  · rfl
+  · exact hFG a j rs
+
+theorem nextU64_eq (j : Jitter.Rng) (rs : List U64) :
+    obs (Jitter.nextU64 j rs) = JitterProc.nextU64 (abs j) rs := by
+  have h := genEntropy_eq { j with halfUsed := false } rs
+  unfold obs Jitter.nextU64 JitterProc.nextU64
+  rw [h]
+  simp [abs]
+
+theorem nextU32_unfold (j : Jitter.Rng) (rs : List U64) :
+    Jitter.nextU32 j rs =
+      if j.halfUsed then some (((j.data >>> 32).setWidth 32, { j with halfUsed := false }), rs)
+      else (Jitter.nextU64 j rs).bind fun r =>
+        some ((r.1.1.setWidth 32, { r.1.2 with data := r.1.1, halfUsed := true }), r.2) := by
+  unfold Jitter.nextU32
+  cases j.halfUsed <;> rfl
+
+theorem nextU32_eq (j : Jitter.Rng) (rs : List U64) :
+    obs (Jitter.nextU32 j rs) = JitterProc.nextU32 (abs j) rs := by
+  rw [nextU32_unfold]
+  unfold JitterProc.nextU32
+  cases h : j.halfUsed
+  · simp only [Bool.false_eq_true, if_false, abs, h]
+    rw [obs_bind _ _ (fun p => some (p.1.setWidth 32, { p.2.1 with pool := p.1, pending := true }, p.2.2))
+      (by intros; rfl), nextU64_eq]
+    unfold JitterProc.nextU64
+    simp only [abs]
+    rcases JitterProc.collect j.data j.rounds rs with _ | ⟨v, rest⟩
+    · rfl
+    · rfl
+  · simp [abs, h, obs]
+
+/-! ### bytes -/
+
+theorem toLE64 (w : U64) : U64.toLE w = JitterProc.leBytes 8 w := by
+  simp [U64.toLE, JitterProc.leBytes, List.range, List.range.loop]
+
+theorem toLE32 (w : U32) : U32.toLE w = JitterProc.leBytes 4 w := by
+  simp [U32.toLE, JitterProc.leBytes, List.range, List.range.loop]
+
+theorem leBytes_take {w : Nat} (x : BitVec w) (k r : Nat) (h : r ≤ k) :
+    (JitterProc.leBytes k x).take r = JitterProc.leBytes r x := by
+  simp [JitterProc.leBytes, ← List.map_take, List.take_range, Nat.min_eq_left h]
+
+theorem fillLoop_succ (k : Nat) (j : Jitter.Rng) (rs : List U64) :
+    Jitter.fillLoop (k + 1) j rs =
+      (Jitter.nextU64 j rs).bind fun r =>
+        (Jitter.fillLoop k r.1.2 r.2).bind fun q =>
+          some ((U64.toLE r.1.1 ++ q.1.1, q.1.2), q.2) := by
+  rfl
+
+theorem words_succ (k : Nat) (st : JitterProc.St) (rs : List U64) :
+    JitterProc.words (k + 1) st rs =
+      (JitterProc.nextU64 st rs).bind fun p =>
+        (JitterProc.words k p.2.1 p.2.2).map fun q => (p.1 :: q.1, q.2) := by
+  rw [JitterProc.words]
+  rcases JitterProc.nextU64 st rs with _ | ⟨w, st', rs'⟩ <;> rfl
+
+theorem fillLoop_eq (k : Nat) (j : Jitter.Rng) (rs : List U64) :
+    obs (Jitter.fillLoop k j rs) =
+      (JitterProc.words k (abs j) rs).map fun p => (p.1.flatMap (JitterProc.leBytes 8), p.2) := by
+  induction k generalizing j rs with
+  | zero => rfl
+  | succ k ih =>
+    rw [fillLoop_succ]
+    rw [obs_bind _ _ (fun p => ((JitterProc.words k p.2.1 p.2.2).map fun q =>
+        (q.1.flatMap (JitterProc.leBytes 8), q.2)).bind fun q =>
+          some (JitterProc.leBytes 8 p.1 ++ q.1, q.2)) ?_, nextU64_eq]
+    · rw [words_succ]
+      rcases JitterProc.nextU64 (abs j) rs with _ | ⟨w, st, rs'⟩
+      · rfl
+      · simp only [Option.bind_some]
+        rcases JitterProc.words k st rs' with _ | ⟨ws, st', rs''⟩
+        · rfl
+        · simp
+    · intro a j' rs'
+      rw [obs_bind _ _ (fun q => some (JitterProc.leBytes 8 a ++ q.1, q.2)) ?_, ih]
+      intro b j'' rs''
+      simp [obs, toLE64]
+
+theorem fill_unfold (n : Nat) (j : Jitter.Rng) (rs : List U64) :
+    Jitter.fill n j rs =
+      (Jitter.fillLoop (n / 8) j rs).bind fun p =>
+        if n % 8 > 4 then
+          (Jitter.nextU64 p.1.2 p.2).bind fun q => some ((p.1.1 ++ (U64.toLE q.1.1).take (n % 8), q.1.2), q.2)
+        else if n % 8 > 0 then
+          (Jitter.nextU32 p.1.2 p.2).bind fun q => some ((p.1.1 ++ (U32.toLE q.1.1).take (n % 8), q.1.2), q.2)
+        else some p := by
+  unfold Jitter.fill
+  simp only [bind, StateT.bind]
+  congr 1
+  funext p
+  rcases p with ⟨⟨pre, j'⟩, rs'⟩
+  dsimp only
+  split
+  · rfl
+  · split <;> rfl
+
+theorem fill_eq (n : Nat) (j : Jitter.Rng) (rs : List U64) :
+    obs (Jitter.fill n j rs) = JitterProc.fillBytes n (abs j) rs := by
+  rw [fill_unfold]
+  rw [obs_bind _ _ (fun p =>
+      if 5 ≤ n % 8 then
+        (JitterProc.nextU64 p.2.1 p.2.2).map fun q => (p.1 ++ JitterProc.leBytes (n % 8) q.1, q.2)
+      else if 1 ≤ n % 8 then
+        (JitterProc.nextU32 p.2.1 p.2.2).map fun q => (p.1 ++ JitterProc.leBytes (n % 8) q.1, q.2)
+      else some p) ?_, fillLoop_eq]
+  · unfold JitterProc.fillBytes
+    rcases JitterProc.words (n / 8) (abs j) rs with _ | ⟨ws, st, rs'⟩
+    · rfl
+    · rfl
+  · intro pre j' rs'
+    have hlt : n % 8 < 8 := Nat.mod_lt _ (by decide)
+    by_cases h5 : 5 ≤ n % 8
+    · have : n % 8 > 4 := h5
+      simp only [this, h5, if_true]
+      rw [obs_bind _ _ (fun q => some (pre ++ JitterProc.leBytes (n % 8) q.1, q.2)) ?_, nextU64_eq]
+      · rcases JitterProc.nextU64 (abs j') rs' with _ | q <;> rfl
+      · intro a j'' rs''
+        simp [obs, toLE64, leBytes_take _ 8 (n % 8) (by omega)]
+    · have : ¬ n % 8 > 4 := h5
+      simp only [this, h5, if_false]
+      by_cases h1 : 1 ≤ n % 8
+      · have : n % 8 > 0 := h1
+        simp only [this, h1, if_true]
+        rw [obs_bind _ _ (fun q => some (pre ++ JitterProc.leBytes (n % 8) q.1, q.2)) ?_, nextU32_eq]
+        · rcases JitterProc.nextU32 (abs j') rs' with _ | q <;> rfl
+        · intro a j'' rs''
+          simp [obs, toLE32, leBytes_take _ 4 (n % 8) (by omega)]
+      · have : ¬ n % 8 > 0 := h1
+        simp only [this, h1, if_false]
+        rfl
+
+theorem timerStats_unfold (j : Jitter.Rng) (b : Bool) (rs : List U64) :
+    Jitter.timerStats j b rs =
+      (Jitter.tick rs).bind fun p => (Jitter.memaccess j b p.2).bind fun q =>
+        (Jitter.lfsrTime q.1 p.1 b q.2).bind fun r => (Jitter.tick r.2).bind fun s =>
+          some ((s.1 - p.1, r.1), s.2) := rfl
+
+theorem tick_cons (r : U64) (rs : List U64) : Jitter.tick (r :: rs) = some (r, rs) := rfl
+theorem tick_nil : Jitter.tick [] = none := rfl
+
+theorem timerStats_eq (j : Jitter.Rng) (b : Bool) (rs : List U64) :
+    obs (Jitter.timerStats j b rs) = JitterProc.timerStats b (abs j) rs := by
+  rw [timerStats_unfold]
+  cases b
+  · match rs with
+    | [] => rfl
+    | [t] =>
+      obtain ⟨mp, hm⟩ := memaccess_false j []
+      simp only [tick_cons, Option.bind_some, hm, lfsrTime_false, tick_nil]
+      rfl
+    | t :: t2 :: rest =>
+      obtain ⟨mp, hm⟩ := memaccess_false j (t2 :: rest)
+      simp only [tick_cons, Option.bind_some, hm, lfsrTime_false, lfsr_eq]
+      rfl
+  · match rs with
+    | [] => rfl
+    | [_] => simp only [tick_cons, Option.bind_some, memaccess_true_nil]; rfl
+    | [_, a] =>
+      obtain ⟨mp, hm⟩ := memaccess_true_cons j a []
+      simp only [tick_cons, Option.bind_some, hm, lfsrTime_true_nil]; rfl
+    | [_, a, b] =>
+      obtain ⟨mp, hm⟩ := memaccess_true_cons j a [b]
+      simp only [tick_cons, Option.bind_some, hm, lfsrTime_true_cons, tick_nil]; rfl
+    | t :: a :: b :: t2 :: rest =>
+      obtain ⟨mp, hm⟩ := memaccess_true_cons j a (b :: t2 :: rest)
+      simp only [tick_cons, Option.bind_some, hm, lfsrTime_true_cons, lfsr_eq]; rfl
+
+theorem setRounds_eq (j : Jitter.Rng) (r : Nat) :
+    (Jitter.setRounds j r).map abs = JitterProc.setRounds r (abs j) := by
+  unfold Jitter.setRounds JitterProc.setRounds
+  by_cases h : r > 0 <;> simp [h, abs]
+
+/-! ## operation sequences -/
+
+open JitterProc (Op Res Halt orBlocked)
+
+/-- one operation on the model -/
+def stepModel (op : Op) (j : Jitter.Rng) (rs : List U64) : Except Halt (Res × Jitter.Rng × List U64) :=
+  match op with
+  | .nextU32 => (orBlocked (Jitter.nextU32 j rs)).map fun r => (.u32 r.1.1, r.1.2, r.2)
+  | .nextU64 => (orBlocked (Jitter.nextU64 j rs)).map fun r => (.u64 r.1.1, r.1.2, r.2)
+  | .fillBytes n => (orBlocked (Jitter.fill n j rs)).map fun r => (.bytes r.1.1, r.1.2, r.2)
+  | .timerStats var => (orBlocked (Jitter.timerStats j var rs)).map fun r => (.stats r.1.1, r.1.2, r.2)
+  | .setRounds r =>
+    match Jitter.setRounds j r with
+    | none => .error .panicked
+    | some j => .ok (.unit, j, rs)
+
+/-- a sequence of operations on the model -/
+def runModel : List Op → Jitter.Rng → List U64 → Except Halt (List Res × Jitter.Rng × List U64)
+  | [], j, rs => .ok ([], j, rs)
+  | op :: ops, j, rs =>
+    match stepModel op j rs with
+    | .error h => .error h
+    | .ok (r, j, rs) => (runModel ops j rs).map fun (res, j, rs) => (r :: res, j, rs)
+
+/-- forget `memPrevIndex` in an outcome -/
+def absOut {α : Type} (x : Except Halt (α × Jitter.Rng × List U64)) : Except Halt (α × JitterProc.St × List U64) :=
+  x.map fun r => (r.1, abs r.2.1, r.2.2)
+
+theorem orBlocked_obs {α β : Type} (x : Option ((α × Jitter.Rng) × List U64)) (f : α → β)
+    (y : Option (α × JitterProc.St × List U64)) (h : obs x = y) :
+    absOut ((orBlocked x).map fun r => (f r.1.1, r.1.2, r.2)) =
+      (orBlocked y).map fun r => (f r.1, r.2.1, r.2.2) := by
+  subst h
+  rcases x with _ | ⟨⟨a, j⟩, rs⟩ <;> rfl
+
+theorem step_eq (op : Op) (j : Jitter.Rng) (rs : List U64) :
+    absOut (stepModel op j rs) = JitterProc.stepSpec op (abs j) rs := by
+  cases op with
+  | nextU32 => exact orBlocked_obs _ Res.u32 _ (nextU32_eq j rs)
+  | nextU64 => exact orBlocked_obs _ Res.u64 _ (nextU64_eq j rs)
+  | fillBytes n => exact orBlocked_obs _ Res.bytes _ (fill_eq n j rs)
+  | timerStats var => exact orBlocked_obs _ Res.stats _ (timerStats_eq j var rs)
+  | setRounds r =>
+    have h := setRounds_eq j r
+    simp only [stepModel, JitterProc.stepSpec]
+    rw [← h]
+    rcases Jitter.setRounds j r with _ | j' <;> rfl
+
+theorem run_eq (ops : List Op) (j : Jitter.Rng) (rs : List U64) :
+    absOut (runModel ops j rs) = JitterProc.runSpec ops (abs j) rs := by
+  induction ops generalizing j rs with
+  | nil => rfl
+  | cons op ops ih =>
+    have hs := step_eq op j rs
+    unfold runModel JitterProc.runSpec
+    rw [← hs]
+    rcases stepModel op j rs with h | ⟨r, j', rs'⟩
+    · rfl
+    · simp only [absOut, Except.map]
+      rw [← ih j' rs']
+      rcases runModel ops j' rs' with h | ⟨res, j'', rs''⟩ <;> rfl
+
+/-! ## counting -/
+
+open JitterProc (Meas untilAccepted)
+
+/-- number of measurements that pass the stuck test -/
+def accepted (l : List Meas) : Nat := l.countP fun m => !m.stuck
+/-- number of stuck measurements -/
+def skipped (l : List Meas) : Nat := l.countP fun m => m.stuck
+
+theorem accepted_cons (m : Meas) (l : List Meas) :
+    accepted (m :: l) = accepted l + (if m.stuck then 0 else 1) := by
+  unfold accepted; cases h : m.stuck <;> simp [h]
+
+theorem skipped_cons (m : Meas) (l : List Meas) :
+    skipped (m :: l) = skipped l + (if m.stuck then 1 else 0) := by
+  unfold skipped; cases h : m.stuck <;> simp [h]
+
+theorem untilAccepted_succ_cons (n : Nat) (m : Meas) (ms : List Meas) :
+    untilAccepted (n + 1) (m :: ms) = (untilAccepted (if m.stuck then n + 1 else n) ms).map (m :: ·) := by
+  rw [untilAccepted]
+
+theorem untilAccepted_some : ∀ (ms : List Meas) (n : Nat) (l : List Meas), untilAccepted n ms = some l →
+    l = ms.take l.length ∧ l.length ≤ ms.length ∧ accepted l = n ∧ l.length = n + skipped l ∧
+      ∀ k, k < l.length → accepted (l.take k) < n
+  | ms, 0, l, h => by
+    rw [untilAccepted_zero] at h
+    cases h
+    simp [accepted, skipped]
+  | [], n + 1, l, h => by simp [untilAccepted] at h
+  | m :: ms, n + 1, l, h => by
+    rw [untilAccepted_succ_cons] at h
+    rcases h0 : untilAccepted (if m.stuck then n + 1 else n) ms with _ | l0
+    · simp [h0] at h
+    · rw [h0] at h
+      cases h
+      obtain ⟨h1, h2, h3, h4, h5⟩ := untilAccepted_some ms _ l0 h0
+      refine ⟨?_, ?_, ?_, ?_, ?_⟩
+      · simp only [List.length_cons, List.take_succ_cons]; rw [← h1]
+      · simp only [List.length_cons]; omega
+      · rw [accepted_cons, h3]; cases m.stuck <;> simp
+      · rw [skipped_cons, List.length_cons, h4]; cases m.stuck <;> simp <;> omega
+      · intro k hk
+        rcases k with _ | k
+        · simp [accepted]
+        · simp only [List.take_succ_cons, accepted_cons]
+          have := h5 k (by simpa using hk)
+          revert this
+          cases m.stuck <;> simp <;> omega
+
+theorem untilAccepted_none : ∀ (ms : List Meas) (n : Nat), untilAccepted n ms = none ↔ accepted ms < n
+  | ms, 0 => by simp [untilAccepted_zero]
+  | [], n + 1 => by simp [untilAccepted, accepted]
+  | m :: ms, n + 1 => by
+    rw [untilAccepted_succ_cons, Option.map_eq_none_iff, untilAccepted_none ms, accepted_cons]
+    cases m.stuck <;> simp <;> omega
+
+theorem measFrom_length : ∀ (ec : Jitter.Ec) (rs : List U64), 3 * (measFrom ec rs).length ≤ rs.length
+  | ec, _ :: t :: _ :: rest => by
+    have := measFrom_length (step ec t).2 rest
+    simp only [measFrom, List.length_cons]; omega
+  | _, [] => by simp [measFrom]
+  | _, [_] => by simp [measFrom]
+  | _, [_, _] => by simp [measFrom]
+
+theorem measurements_length (rs : List U64) (h : JitterProc.measurements rs ≠ []) :
+    1 + 3 * (JitterProc.measurements rs).length ≤ rs.length := by
+  rcases rs with _ | ⟨t0, rs⟩
+  · exact absurd measurements_nil h
+  · rw [measurements_cons]
+    have := measFrom_length ⟨t0, 0, 0⟩ rs
+    simp only [List.length_cons]; omega
+
+/-- what a successful collection consists of -/
+theorem collect_some (pool : U64) (rounds : Nat) (rs : List U64) (v : U64) (rs' : List U64)
+    (h : JitterProc.collect pool rounds rs = some (v, rs')) :
+    ∃ prime ms taken, JitterProc.measurements rs = prime :: ms ∧
+      untilAccepted rounds ms = some taken ∧
+      v = JitterProc.stir ((prime :: taken).foldl JitterProc.absorb pool) ∧
+      rs' = rs.drop (1 + 3 * (1 + taken.length)) ∧
+      rs.length = rs'.length + (1 + 3 * (1 + taken.length)) := by
+  unfold JitterProc.collect at h
+  have hl := measurements_length rs
+  rcases hm : JitterProc.measurements rs with _ | ⟨prime, ms⟩
+  · rw [hm] at h; simp at h
+  · rw [hm] at h hl
+    dsimp only at h
+    rcases ht : untilAccepted rounds ms with _ | taken
+    · rw [ht] at h; simp at h
+    · rw [ht] at h
+      simp only [Option.map_some, Option.some.injEq, Prod.mk.injEq] at h
+      obtain ⟨hv, hr⟩ := h
+      refine ⟨prime, ms, taken, rfl, ht, hv.symm, hr.symm, ?_⟩
+      have h2 := (untilAccepted_some ms rounds taken ht).2.1
+      have hl := hl (by simp)
+      simp only [List.length_cons] at hl
+      rw [← hr, List.length_drop]
+      omega
+
+/-! ## the remaining readings are a suffix of the readings -/
+
+theorem collect_suffix {pool : U64} {rounds : Nat} {rs : List U64} {v : U64} {rs' : List U64}
+    (h : JitterProc.collect pool rounds rs = some (v, rs')) : rs' <:+ rs := by
+  obtain ⟨_, _, taken, _, _, _, hr, _⟩ := collect_some pool rounds rs v rs' h
+  rw [hr]; exact List.drop_suffix _ _
+
+theorem nextU64_suffix {st : JitterProc.St} {rs : List U64} {v : U64} {st' : JitterProc.St} {rs' : List U64}
+    (h : JitterProc.nextU64 st rs = some (v, st', rs')) : rs' <:+ rs := by
+  unfold JitterProc.nextU64 at h
+  rcases hc : JitterProc.collect st.pool st.rounds rs with _ | ⟨v0, r0⟩
+  · simp [hc] at h
+  · rw [hc] at h
+    simp only [Option.map_some, Option.some.injEq, Prod.mk.injEq] at h
+    rw [← h.2.2]; exact collect_suffix hc
+
+theorem nextU32_suffix {st : JitterProc.St} {rs : List U64} {v : U32} {st' : JitterProc.St} {rs' : List U64}
+    (h : JitterProc.nextU32 st rs = some (v, st', rs')) : rs' <:+ rs := by
+  unfold JitterProc.nextU32 at h
+  split at h
+  · simp only [Option.some.injEq, Prod.mk.injEq] at h
+    rw [← h.2.2]; exact List.suffix_refl _
+  · rcases hc : JitterProc.collect st.pool st.rounds rs with _ | ⟨v0, r0⟩
+    · simp [hc] at h
+    · rw [hc] at h
+      simp only [Option.map_some, Option.some.injEq, Prod.mk.injEq] at h
+      rw [← h.2.2]; exact collect_suffix hc
+
+theorem words_suffix : ∀ (k : Nat) {st : JitterProc.St} {rs : List U64} {ws : List U64} {st' : JitterProc.St}
+    {rs' : List U64}, JitterProc.words k st rs = some (ws, st', rs') → rs' <:+ rs
+  | 0, st, rs, ws, st', rs', h => by
+    simp only [JitterProc.words, Option.some.injEq, Prod.mk.injEq] at h
+    rw [← h.2.2]; exact List.suffix_refl _
+  | k + 1, st, rs, ws, st', rs', h => by
+    rw [words_succ] at h
+    rcases h1 : JitterProc.nextU64 st rs with _ | ⟨w, st1, rs1⟩
+    · simp [h1] at h
+    · rw [h1, Option.bind_some] at h
+      rcases h2 : JitterProc.words k st1 rs1 with _ | ⟨ws2, st2, rs2⟩
+      · simp [h2] at h
+      · simp only [h2, Option.map_some, Option.some.injEq, Prod.mk.injEq] at h
+        rw [← h.2.2]
+        exact (words_suffix k h2).trans (nextU64_suffix h1)
+
+theorem fillBytes_suffix {n : Nat} {st : JitterProc.St} {rs : List U64} {bs : List U8} {st' : JitterProc.St}
+    {rs' : List U64} (h : JitterProc.fillBytes n st rs = some (bs, st', rs')) : rs' <:+ rs := by
+  unfold JitterProc.fillBytes at h
+  rcases h1 : JitterProc.words (n / 8) st rs with _ | ⟨ws, st1, rs1⟩
+  · simp [h1] at h
+  · rw [h1] at h
+    dsimp only at h
+    have s1 := words_suffix _ h1
+    split at h
+    · rcases h2 : JitterProc.nextU64 st1 rs1 with _ | ⟨w, st2, rs2⟩
+      · simp [h2] at h
+      · simp only [h2, Option.map_some, Option.some.injEq, Prod.mk.injEq] at h
+        rw [← h.2.2]; exact (nextU64_suffix h2).trans s1
+    · split at h
+      · rcases h2 : JitterProc.nextU32 st1 rs1 with _ | ⟨w, st2, rs2⟩
+        · simp [h2] at h
+        · simp only [h2, Option.map_some, Option.some.injEq, Prod.mk.injEq] at h
+          rw [← h.2.2]; exact (nextU32_suffix h2).trans s1
+      · simp only [Option.some.injEq, Prod.mk.injEq] at h
+        rw [← h.2.2]; exact s1
+
+theorem timerStats_suffix {b : Bool} {st : JitterProc.St} {rs : List U64} {d : U64} {st' : JitterProc.St}
+    {rs' : List U64} (h : JitterProc.timerStats b st rs = some (d, st', rs')) :
+    rs' = rs.drop (if b then 4 else 2) ∧ (if b then 4 else 2) ≤ rs.length := by
+  unfold JitterProc.timerStats at h
+  split at h
+  · simp only [Option.some.injEq, Prod.mk.injEq] at h
+    simp [← h.2.2]
+  · simp only [Option.some.injEq, Prod.mk.injEq] at h
+    simp [← h.2.2]
+  · simp at h
+
+theorem orBlocked_ok {α : Type} {x : Option α} {a : α} (h : orBlocked x = .ok a) : x = some a := by
+  cases x with
+  | none => simp [orBlocked] at h
+  | some b => simp only [orBlocked, Except.ok.injEq] at h; rw [h]
+
+theorem stepSpec_suffix {op : Op} {st : JitterProc.St} {rs : List U64} {r : Res} {st' : JitterProc.St}
+    {rs' : List U64} (h : JitterProc.stepSpec op st rs = .ok (r, st', rs')) : rs' <:+ rs := by
+  cases op with
+  | nextU32 =>
+    simp only [JitterProc.stepSpec] at h
+    rcases hx : JitterProc.nextU32 st rs with _ | ⟨a, st1, rs1⟩
+    · simp [hx, orBlocked, Except.map] at h
+    · simp only [hx, orBlocked, Except.map, Except.ok.injEq, Prod.mk.injEq] at h
+      rw [← h.2.2]; exact nextU32_suffix hx
+  | nextU64 =>
+    simp only [JitterProc.stepSpec] at h
+    rcases hx : JitterProc.nextU64 st rs with _ | ⟨a, st1, rs1⟩
+    · simp [hx, orBlocked, Except.map] at h
+    · simp only [hx, orBlocked, Except.map, Except.ok.injEq, Prod.mk.injEq] at h
+      rw [← h.2.2]; exact nextU64_suffix hx
+  | fillBytes n =>
+    simp only [JitterProc.stepSpec] at h
+    rcases hx : JitterProc.fillBytes n st rs with _ | ⟨a, st1, rs1⟩
+    · simp [hx, orBlocked, Except.map] at h
+    · simp only [hx, orBlocked, Except.map, Except.ok.injEq, Prod.mk.injEq] at h
+      rw [← h.2.2]; exact fillBytes_suffix hx
+  | timerStats b =>
+    simp only [JitterProc.stepSpec] at h
+    rcases hx : JitterProc.timerStats b st rs with _ | ⟨a, st1, rs1⟩
+    · simp [hx, orBlocked, Except.map] at h
+    · simp only [hx, orBlocked, Except.map, Except.ok.injEq, Prod.mk.injEq] at h
+      rw [← h.2.2, (timerStats_suffix hx).1]; exact List.drop_suffix _ _
+  | setRounds n =>
+    simp only [JitterProc.stepSpec] at h
+    rcases hx : JitterProc.setRounds n st with _ | st1
+    · simp [hx] at h
+    · simp only [hx, Except.ok.injEq, Prod.mk.injEq] at h
+      rw [← h.2.2]; exact List.suffix_refl _
+
+theorem runSpec_suffix : ∀ (ops : List Op) {st : JitterProc.St} {rs : List U64} {res : List Res}
+    {st' : JitterProc.St} {rs' : List U64}, JitterProc.runSpec ops st rs = .ok (res, st', rs') → rs' <:+ rs
+  | [], st, rs, res, st', rs', h => by
+    simp only [JitterProc.runSpec, Except.ok.injEq, Prod.mk.injEq] at h
+    rw [← h.2.2]; exact List.suffix_refl _
+  | op :: ops, st, rs, res, st', rs', h => by
+    rw [JitterProc.runSpec] at h
+    rcases h1 : JitterProc.stepSpec op st rs with e | ⟨r, st1, rs1⟩
+    · simp [h1] at h
+    · rw [h1] at h
+      dsimp only at h
+      rcases h2 : JitterProc.runSpec ops st1 rs1 with e | ⟨res2, st2, rs2⟩
+      · simp [h2, Except.map] at h
+      · simp only [h2, Except.map, Except.ok.injEq, Prod.mk.injEq] at h
+        rw [← h.2.2]
+        exact (runSpec_suffix ops h2).trans (stepSpec_suffix h1)
+
 end Rngs.JitterRefine
